@@ -833,6 +833,8 @@ def _execute(scn, keep_objects=False, prev_ctx=None):
                         u, f, tu = op['at']
                         n = len(pt.time)
                         i = min(int(u * (n - 1)), n - 2)
+                        if u >= 1.0 and f == 0:
+                            i = n - 1         # the final recorded instant
                         if f == 0:
                             target = U.Time(pt.time[i].value, pt.time[i].unit)
                             if 0 < i:
